@@ -1,7 +1,55 @@
 import Mutagen.Driver.Util
+import Mutagen.Model.Rsync
+import Mutagen.Model.Sha1
 namespace Mutagen.Driver.C19
+open Mutagen.Driver Mutagen.Model.Rsync
 
-/-- Model-side handler for one line of the C19 correspondence stream. -/
-def handle (_line : String) : String := "unimplemented"
+/-!
+Line: `<hasher> <blockSize> <maxDataOpSize> <base hex> <target hex>` with
+hasher `sha1` (the engine's own) or `ends` (a deliberately colliding strong
+hash: first and last byte of the block, injected into the real engine).
+Output: `sig=<blockSize>/<lastBlockSize>/<weak>:<strong hex>,… ops=<op>,… exit=<e> patched=<hex|ERR>`
+where an op is `D<hex>` (data) or `B<start>+<count>` (blocks).
+-/
+
+/-- The deliberately weak strong hash: `[first, last]` byte (empty for no data). -/
+def endsHash (d : List UInt8) : List UInt8 :=
+  match d.head?, d.getLast? with
+  | some a, some b => [a, b]
+  | _, _ => []
+
+def hasher (name : String) : Option (List UInt8 → List UInt8) :=
+  match name with
+  | "sha1" => some Mutagen.Model.Sha1.sha1
+  | "ends" => some endsHash
+  | _ => none
+
+def showOp (o : Operation) : String :=
+  if o.data.length > 0 ∧ o.start = 0 ∧ o.count = 0 then s!"D{encHex o.data}"
+  else if o.data.length = 0 then s!"B{o.start}+{o.count}"
+  else s!"X{encHex o.data}/{o.start}+{o.count}"
+
+def showList (xs : List String) : String :=
+  if xs.isEmpty then "-" else ",".intercalate xs
+
+def showSig (s : Signature (List UInt8)) : String :=
+  s!"{s.blockSize}/{s.lastBlockSize}/" ++ showList (s.hashes.map fun h => s!"{h.weak.toNat}:{encHex h.strong}")
+
+def showExit : Exit → String
+  | .ok => "ok" | .err => "err" | .panic => "panic" | .fuel => "fuel"
+
+def handle (line : String) : String :=
+  match fields line with
+  | [hn, bs, mx, b, t] =>
+    match hasher hn, bs.toNat?, mx.toNat?, decHex b, decHex t with
+    | some H, some bs, some mx, some base, some target =>
+      let sig := signature H base bs
+      let (ops, ex) := deltifyBytes H target sig mx
+      let patched := match patchBytes base sig ops with
+        | some out => encHex out
+        | none => "ERR"
+      s!"sig={showSig sig} ops={showList (ops.map showOp)} exit={showExit ex} patched={patched}"
+    | _, _, _, _, _ => "bad-op"
+  | _ => "bad-op"
 
 end Mutagen.Driver.C19
